@@ -18,7 +18,7 @@ RULE = (
     "(-0.0, 1e308, 5e-324); distinct = hash of the configuration"
 )
 ASSUMPTIONS = ["no NaN/Infinity and no lone surrogates (not JSON-representable)", "attribute keys as in C10"]
-GATES = ["mon.C11.export", "mon.C11.write", "mon.C11.import", "mon.C11.read", "C11.maxlevel_forwarded", "C11.custom_dictexporter", "C11.importer_kwargs", "C11.non_ascii", "C11.realfile"]
+GATES = ["mon.C11.export", "mon.C11.write", "mon.C11.import", "mon.C11.read", "C11.maxlevel_forwarded", "C11.custom_dictexporter", "C11.importer_kwargs", "C11.non_ascii", "C11.realfile", "C11.exporter_reused"]
 
 
 def plan(tier, seed, jobs):
@@ -129,6 +129,22 @@ def check_one(ctx, lib, rng, par, attrs, kind, case):
                     if r:
                         ctx.violation("C11/read/tree", "read-equals-import", dict(cfg, imode=imode), expected=repr(want)[:500], observed=r[:500])
                         return False
+        # one exporter object re-used while its public attributes are reassigned
+        ctx.count("C11.exporter_reused")
+        je = JsonExporter(**jopts)
+        for mlx in (rng.choice([1, 2]), None, rng.choice([0, 3]), None):
+            je.maxlevel = mlx
+            sx = rng.randrange(n)
+            want = json.dumps(c10.ref_export(recorded, ch, sx, mlx, None, None, dict), **jopts)
+            gotx = je.export(nodes[sx])
+            if gotx != want:
+                try:
+                    same = c10.deep_eq(c10._plain(json.loads(gotx)), c10._plain(json.loads(want)))
+                except ValueError:
+                    same = False
+                if not same:
+                    ctx.violation("C11/export/reused-exporter", "json-dumps-of-reference", dict(case, json_opts=repr(jopts), maxlevel=mlx, start=sx), expected=want[:500], observed=str(gotx)[:500])
+                    return False
         # a real UTF-8 file once per option set
         ctx.count("C11.realfile")
         fd, path = tempfile.mkstemp(prefix="c11-", suffix=".json", dir=os.getcwd())
